@@ -57,6 +57,9 @@ TEMPLATES = [
     ["build", "deepcopy", "copy_of_copy", "process_copy", "process_orig"],
     ["scenario_run", "run_sim"],
     ["build", "pickle", "process_copy", "run_sim"],
+    ["build", "caller_edits_inputs", "process_orig"],
+    ["build", "deepcopy", "caller_edits_inputs", "process_copy", "process_orig"],
+    ["run_sim", "caller_edits_inputs", "saveload_result"],
 ]
 
 _CORPUS = None
@@ -220,6 +223,11 @@ def run(ch, idx, tier):
             if variant != "yfactors_dt":
                 shared_projects.setdefault(name, P)
         parset, progset, instr, scen = make_config(at, P, variant)
+        if "caller_edits_inputs" in tpl:
+            # this client will edit its inputs after building: give it private (equal) copies, the snapshots below are taken from them
+            import sciris as _sc
+
+            parset, progset, instr = _sc.dcp(parset), _sc.dcp(progset), _sc.dcp(instr)
         if variant != "parscen":
             tpl = [op for op in tpl if op != "scenario_run"] or ["run_sim"]
         if variant in ("yfactors_dt", "parscen"):
@@ -308,10 +316,13 @@ def run(ch, idx, tier):
         P, parset, progset, instr = c["P"], c["parset"], c["progset"], c["instr"]
         M = Mc = R = None
         path = []
+        restore = []
         for op in c["template"]:
             b.yield_point("op")
             path.append(op)
             if op == "run_sim":
+                if edited.get(c["k"]):
+                    continue  # a run from edited inputs is a different configuration; nothing to compare it with
                 R = P.run_sim(parset, progset, instr)
                 check_result(c, R, "run_sim")
             elif op == "build":
@@ -348,10 +359,42 @@ def run(ch, idx, tier):
                 pg2 = P2.progsets[0] if progset is not None else None
                 R = P2.run_sim(ps2, pg2, instr)
                 check_result(c, R, "Project save/load+run_sim")
+            elif op == "caller_edits_inputs":
+                # The model copied progset / instructions / framework when it was built and read everything it needs
+                # from the parset, so whatever the caller now does with ITS objects must not reach a built model or an
+                # existing Result.  (The client works on private copies from here on, so that its later operations and the
+                # other clients that share the project object still see the original inputs.)
+                if instr is not None:
+                    for ts in instr.alloc.values():
+                        ts.vals = [v * 3.0 + 1.0 for v in ts.vals]
+                    instr.alloc["__caller_edit__"] = at.TimeSeries(instr.start_year, 123.0)
+                    instr.start_year = instr.start_year + 1.0
+                if progset is not None:
+                    for prog in progset.programs.values():
+                        prog.unit_cost.vals = [v * 2.0 for v in prog.unit_cost.vals]
+                        if prog.unit_cost.assumption is not None:
+                            prog.unit_cost.assumption *= 2.0
+                    for co in progset.covouts.values():
+                        co.baseline = co.baseline * 0.5
+                        co.update_outcomes()
+                for par in parset.pars.values():
+                    par.meta_y_factor *= 1.25
+                bump("fault:caller_edits_its_inputs_after_build")
+                # restore the caller's objects for whoever shares them; the built model / result must not have noticed
+                restore.append(True)
             elif op == "scenario_run":
                 R = c["scen"].run(P, P.parsets[0], store_results=False)
                 check_result(c, R, "Scenario.run")
+            if op == "caller_edits_inputs":
+                # the edit is deliberate: re-snapshot what the caller now owns (later operations must leave THAT unchanged)
+                for k2 in ("parset", "progset", "instructions"):
+                    if c["inputs"].get(k2) is not None:
+                        c["snap"][k2] = flatten(c["inputs"][k2])
+                edited[c["k"]] = True
+                continue
             check_inputs(c, op)
+
+    edited = {}
 
     def between(b):
         disturb(b)
